@@ -47,6 +47,19 @@ pub fn syn_input(toks: &[TIdx<u32>], rng: &mut Rng, gaps: bool) -> SynInput {
     SynInput { text, lexemes }
 }
 
+/// Like `syn_input` with gaps, but about one lexeme in four is flagged faulty by the "lexer" (the
+/// Lexeme trait allows a lexer to hand over faulty lexemes of non-zero length; the parser must treat
+/// them like any other lexeme of their token, span included).
+pub fn syn_input_with_faulty_lexemes(toks: &[TIdx<u32>], rng: &mut Rng) -> SynInput {
+    let mut si = syn_input(toks, rng, true);
+    for l in si.lexemes.iter_mut() {
+        if rng.chance(1, 4) {
+            *l = Lx::new_faulty(l.tok_id(), l.span().start(), l.span().len());
+        }
+    }
+    si
+}
+
 impl SynInput {
     pub fn lexer(&self) -> LRNonStreamingLexer<'_, '_, LT> {
         LRNonStreamingLexer::new(&self.text, self.lexemes.iter().map(|l| Ok(*l)).collect(), NewlineCache::from_str(&self.text).unwrap())
@@ -140,7 +153,8 @@ pub fn parse_tree(
     cost: &dyn Fn(TIdx<u32>) -> u8,
 ) -> (Option<Tree>, Vec<PErr>) {
     let lexer = inp.lexer();
-    let pb = RTParserBuilder::<u32, LT>::new(grm, st).recoverer(rk).term_costs(cost);
+    // both orders of the two builder calls are in use (chosen by the input's length)
+    let pb = if inp.text.len() % 2 == 0 { RTParserBuilder::<u32, LT>::new(grm, st).recoverer(rk).term_costs(cost) } else { RTParserBuilder::<u32, LT>::new(grm, st).term_costs(cost).recoverer(rk) };
     pb.parse_map(&lexer, &|l| term_of(l), &|ridx, kids| Tree::Nonterm { ridx: u32::from(ridx), kids })
 }
 
